@@ -213,3 +213,128 @@ package core
 //@   loop 1 invariant forall j :: 0 <= j && j < iter ==> (fn(core.Fork.getState, self.forks[j]) == "complete" || fn(core.Fork.getState, self.forks[j]) == "disabled")
 //@   loop 2 invariant forall m *core.Metadata :: mdState(dom(m.contents)) == mdState(old(dom(m.contents)))
 //@   loop 2 invariant forall k string :: visited(k) ==> (fn(core.Node.getState, fn(core.Nodable.getNode, self.prenodes[k])) == "complete" || fn(core.Node.getState, fn(core.Nodable.getNode, self.prenodes[k])) == "disabled")
+
+// ---------------------------------------------------------------- C03 / C05 job starts
+//
+// ghost runs[m]: number of times a job has been started for metadata object m.
+// A call to Node.runJob IS the job-start event (its body, which talks to the
+// job manager, is not verified here).
+
+//@ func core.Node.runJob property C03
+//@   trusted
+//@   effect runs metadata
+
+//@ callers core.Node.runJob property C03 : core.Node.runSplit, core.Node.runJoin, core.Node.runChunk
+//@ callers core.Node.runChunk property C03 C02 : core.Chunk.step
+//@ callers core.Node.runSplit property C03 C02 : core.Fork.doSplit
+//@ callers core.Node.runJoin property C03 C02 : core.Fork.doJoin
+//@ callers core.Chunk.step property C03 C02 : core.Fork.doChunks
+//@ callers core.Fork.doSplit property C03 C02 : core.Fork.stepStage
+//@ callers core.Fork.doChunks property C03 C02 : core.Fork.stepStage
+//@ callers core.Fork.doJoin property C03 C02 : core.Fork.stepStage
+//@ callers core.Fork.doComplete property C03 C02 : core.Fork.stepStage
+//@ callers core.Fork.stepStage property C03 C02 : core.Fork.step
+//@ callers core.Fork.step property C03 C02 : core.Node.step
+
+//@ func core.Node.runChunk property C03
+//@   ensures ghost(runs)[metadata] == old(ghost(runs)[metadata]) + 1
+//@   ensures forall m *core.Metadata :: m != metadata ==> ghost(runs)[m] == old(ghost(runs)[m])
+//@ func core.Node.runSplit property C03
+//@   ensures ghost(runs)[metadata] == old(ghost(runs)[metadata]) + 1
+//@   ensures forall m *core.Metadata :: m != metadata ==> ghost(runs)[m] == old(ghost(runs)[m])
+//@ func core.Node.runJoin property C03
+//@   ensures ghost(runs)[metadata] == old(ghost(runs)[metadata]) + 1
+//@   ensures forall m *core.Metadata :: m != metadata ==> ghost(runs)[m] == old(ghost(runs)[m])
+
+//@ func core.Chunk.step property C03 C05
+//@   uses mdstate
+//@   ensures @atmostonce ghost(runs)[self.metadata] <= old(ghost(runs)[self.metadata]) + 1
+//@   ensures @others forall m *core.Metadata :: m != self.metadata ==> ghost(runs)[m] == old(ghost(runs)[m])
+//@   ensures @notready mdState(old(dom(self.metadata.contents))) != "" ==> ghost(runs) == old(ghost(runs))
+//@   ensures @guard old(self.hasBeenRun) ==> ghost(runs) == old(ghost(runs))
+//@   ensures @flag ghost(runs)[self.metadata] > old(ghost(runs)[self.metadata]) ==> self.hasBeenRun
+//@   loop 1 invariant ghost(runs) == old(ghost(runs)) && self.hasBeenRun && self.metadata == old(self.metadata)
+
+// Ghost event: completes[m] counts WriteTime(CompleteFile) on metadata m.
+//@ func core.Metadata.WriteTime property C06 C02
+//@   trusted
+//@   modifies mapof(self.contents), mapof(self.readCache), held(self.mutex), ghost(completes)
+//@   ensures name == "complete" ==> ghost(completes)[self] == old(ghost(completes)[self]) + 1
+//@   ensures forall m *core.Metadata :: (m != self || name != "complete") ==> ghost(completes)[m] == old(ghost(completes)[m])
+
+// Abstraction: what read returns depends on the metadata object and file name.
+// Ghost events: rbad[m] counts failed reads of metadata m; cbad[f] counts chunk
+// output validations of fork f that failed.
+//@ func core.Metadata.read property C06
+//@   trusted
+//@   modifies mapof(self.readCache), held(self.mutex)
+//@   effect rbad self := ghost(rbad)[self] + (isnil(result.1) ? 0 : 1)
+
+// Ghost events: vcount[f] counts output validations of fork f, vok[f] is the last verdict.
+//@ func core.Fork.verifyOutput property C06
+//@   opt deterministic on
+//@   effect vcount self
+//@   effect vok self := result.0
+//@ func core.Chunk.verifyOutput property C06
+//@   effect cbad self.fork := ghost(cbad)[self.fork] + (result ? 0 : 1)
+//@   ensures ghost(runs) == old(ghost(runs)) && ghost(completes) == old(ghost(completes))
+//@ func core.Fork.Split property C03
+//@   pure
+//@   opt deterministic on
+//@ func core.Fork.OutParams property C06
+//@   pure
+//@   opt deterministic on
+
+//@ func core.NewMetadata property C03
+//@   ensures result != nil && !old(alloc(result))
+//@ func core.newMetadataWithJournalPath property C03
+//@   ensures result != nil && !old(alloc(result))
+//@ func core.NewChunk property C03
+//@   ensures @owner result.fork == fork
+//@   ensures @a result != nil && !old(alloc(result))
+//@   ensures @b result.metadata != nil
+//@   ensures ghost(runs) == old(ghost(runs)) && ghost(completes) == old(ghost(completes))
+
+//@ func core.Fork.doSplit property C03 C02 C05
+//@   ensures @values result == "disabled" || result == "failed" || result == "split_complete" || result == "ready"
+//@   ensures @once forall m *core.Metadata :: ghost(runs)[m] <= old(ghost(runs)[m]) + 1
+//@   ensures @single forall m1 *core.Metadata, m2 *core.Metadata :: ghost(runs)[m1] != old(ghost(runs)[m1]) && ghost(runs)[m2] != old(ghost(runs)[m2]) ==> m1 == m2
+//@   ensures @guard old(self.split_has_run) ==> ghost(runs) == old(ghost(runs))
+//@   ensures @flag ghost(runs) != old(ghost(runs)) ==> self.split_has_run
+//@   ensures @norun result != "ready" ==> ghost(runs) == old(ghost(runs))
+
+//@ func core.Fork.doChunks property C03 C02 C05
+//@   requires @phase state == "split_complete"
+//@   ensures @values result == "split_complete" || result == "chunks_complete"
+//@   ensures @skip result == "chunks_complete" ==> ghost(runs) == old(ghost(runs))
+//@   loop 1 invariant ghost(runs) == old(ghost(runs)) && state == "split_complete"
+//@   loop 2 invariant state == "split_complete"
+
+//@ func core.Fork.doJoin property C03 C02 C06
+//@   requires @phase state == "chunks_complete"
+//@   requires @own forall j :: 0 <= j && j < len(self.chunks) ==> self.chunks[j] != nil && self.chunks[j].fork == self
+//@   ensures @values result == "failed" || result == "chunks_complete" || result == "join_complete"
+//@   ensures @once forall m *core.Metadata :: ghost(runs)[m] <= old(ghost(runs)[m]) + 1
+//@   ensures @single forall m1 *core.Metadata, m2 *core.Metadata :: ghost(runs)[m1] != old(ghost(runs)[m1]) && ghost(runs)[m2] != old(ghost(runs)[m2]) ==> m1 == m2
+//@   ensures @guard old(self.join_has_run) ==> ghost(runs) == old(ghost(runs))
+//@   ensures @flag ghost(runs) != old(ghost(runs)) ==> self.join_has_run
+//@   ensures @failed result != "chunks_complete" ==> ghost(runs) == old(ghost(runs))
+//@   ensures @badchunk ghost(cbad)[self] != old(ghost(cbad)[self]) ==> result == "failed"
+//@   loop 1 invariant ghost(runs) == old(ghost(runs)) && self.join_has_run == old(self.join_has_run) && state == "chunks_complete"
+//@   loop 2 invariant ghost(runs) == old(ghost(runs)) && self.join_has_run == old(self.join_has_run) && state == "chunks_complete"
+//@   loop 2 invariant ok ==> ghost(cbad)[self] == old(ghost(cbad)[self])
+//@   loop 2 invariant 0 <= iter
+//@   loop 3 invariant ghost(runs) == old(ghost(runs)) && self.join_has_run == old(self.join_has_run) && state == "chunks_complete"
+
+// _complete is written for the fork only after its outputs validated.
+//@ func core.Fork.doComplete property C06 C03
+//@   ensures @norun ghost(runs) == old(ghost(runs))
+//@   ensures @once forall m *core.Metadata :: ghost(completes)[m] <= old(ghost(completes)[m]) + 1
+//@   ensures @validated ghost(completes) != old(ghost(completes)) ==> ghost(vcount)[self] > old(ghost(vcount)[self]) && ghost(vok)[self]
+
+//@ func core.Fork.stepStage property C02 C03 C05 C06
+//@   uses mdstate
+//@   let st0 = fn(core.Fork.getState, self)
+//@   ensures @disabled st0 == "disabled" ==> ghost(runs) == old(ghost(runs)) && ghost(completes) == old(ghost(completes))
+//@   ensures @terminal st0 == "complete" || st0 == "failed" ==> ghost(runs) == old(ghost(runs)) && ghost(completes) == old(ghost(completes))
+//@   ensures @running st0 == "split_running" || st0 == "split_queued" || st0 == "chunks_running" || st0 == "join_running" || st0 == "join_queued" ==> ghost(runs) == old(ghost(runs)) && ghost(completes) == old(ghost(completes))
